@@ -97,7 +97,7 @@ func needSpace(a, b string) bool {
 	return false
 }
 
-var commentWords = []string{"x", "token : 'a' ;", "A : b | c ;", "<< not code >>", "\"str\"", "'q'", "`raw`", "é世", "* /", "/ /", "", "//", "'"}
+var commentWords = []string{"*", "**", "***", " doc **", "* a * b **", "/", "/*", "x", "token : 'a' ;", "A : b | c ;", "<< not code >>", "\"str\"", "'q'", "`raw`", "é世", "* /", "/ /", "", "//", "'"}
 
 func genComment(t *rapid.T, lineOK bool) string {
 	body := rapid.SampledFrom(commentWords).Draw(t, "commentBody")
